@@ -12,7 +12,7 @@ TECHNIQUE = "fault injection enumerated over call positions and fault kinds on H
 RULE = ("For each generated scenario (all noise modes, small budgets) a clean reference run gives the number of target calls n and "
         "the phase of every call (x0, noise test, initial design, search k, poll k, final re-sampling). Faults are then injected "
         "at call positions k x fault kinds: the target raises {InjectedFault, ValueError, KeyError, ZeroDivisionError, "
-        "LinAlgError, a two-argument StructuredError, and message-less InjectedFault()/AssertionError()} or returns {nan, +inf, -inf, complex, 2-vector, 2-list, None} (specified noise also: bare scalar, 3-tuple, "
+        "LinAlgError, a two-argument StructuredError, an immutable FrozenError, and message-less InjectedFault()/AssertionError()} or returns {nan, +inf, -inf, complex, 2-vector, 2-list, None} (specified noise also: bare scalar, 3-tuple, "
         "(v,0), (v,-1), (v,nan), (v,inf), (nan,1)). Quick tier: first/last/middle position of every phase; thorough tier: "
         "every k. Oracle: the same exception type (ValueError for invalid values) escapes optimize(), the target is not called "
         "again, func_count = k-1, the calls before k are identical to the reference run and the log holds only finite values "
@@ -44,7 +44,14 @@ class StructuredError(Exception):
         self.code, self.detail = code, detail
 
 
-RAISE = {"StructuredError(2)": StructuredError, "InjectedFault": InjectedFault, "ValueError": ValueError, "KeyError": KeyError, "ZeroDivisionError": ZeroDivisionError,
+class FrozenError(Exception):
+    """A user exception whose attributes cannot be assigned after construction (frozen dataclass / attrs style)."""
+
+    def __setattr__(self, name, value):
+        raise AttributeError(f"cannot assign to field {name!r}")
+
+
+RAISE = {"FrozenError": FrozenError, "StructuredError(2)": StructuredError, "InjectedFault": InjectedFault, "ValueError": ValueError, "KeyError": KeyError, "ZeroDivisionError": ZeroDivisionError,
          "LinAlgError": np.linalg.LinAlgError, "InjectedFault()": InjectedFault, "AssertionError()": AssertionError, "StrictInit": StrictInit}
 BAD_VALUES = {"nan": float("nan"), "+inf": float("inf"), "-inf": float("-inf"), "complex": complex(1.0, 2.0),
               "complex-array1": np.array([1.0 + 2.0j]), "nan-array1": np.array([float("nan")]),
